@@ -10,6 +10,12 @@ use std::ptr;
 #[cfg(feature = "debug")]
 use crate::compiler::bytecode_to_human;
 
+/// The maximum number of values on the stack when a function is called
+const MAX_STACK_SIZE: usize = u16::MAX as usize;
+
+/// The maximum number of nested function calls
+const MAX_FRAMES: usize = u16::MAX as usize;
+
 #[derive(Copy, Clone, Debug)]
 struct Frame {
     /// Index of the current instruction
@@ -384,7 +390,6 @@ impl VM {
                 }
                 OpCode::Call => {
                     let num_args = self.read_u8();
-                    let base_pointer = self.stack.len() as u16 - 1 - num_args as u16;
                     let obj = self.pop();
                     if obj.tag() != Type::Function {
                         return Err(Error::TypeError(format!(
@@ -393,6 +398,24 @@ impl VM {
                         )));
                     }
                     let [ip, num_locals] = obj.as_function();
+
+                    // Every argument needs a parameter (= local) to end up in
+                    if num_args as u32 > num_locals {
+                        return Err(Error::ArgumentError(format!(
+                            "functie verwacht hooguit {} argumenten, maar kreeg er {}",
+                            num_locals, num_args
+                        )));
+                    }
+
+                    // Base pointers are 16 bits wide, so that is as deep as the stack can get
+                    if self.stack.len() + (num_locals as usize) > MAX_STACK_SIZE
+                        || self.frames.len() >= MAX_FRAMES
+                    {
+                        return Err(Error::TypeError(
+                            "maximale recursiediepte bereikt".to_string(),
+                        ));
+                    }
+                    let base_pointer = self.stack.len() as u16 - num_args as u16;
 
                     // Make room on the stack for any local variables defined inside this function
                     for _ in 0..num_locals - num_args as u32 {
